@@ -1,7 +1,8 @@
 // S-harness for cocls::signal<int> / cocls::signal<void> (C15).
 // Reads cases from stdin, prints one canonical line per operation (see lean/Drivers/C15.lean).
 //
-//   case <id> sig <int|void> [hook]   with `hook` there is no signal at first: the first operation must be
+//   case <id> sig <int|void|obj> [hook]   with `hook` there is no signal at first: the first operation must be
+//                             (obj: signal<reading>, a class type whose construction can throw - see `reading` below)
 //   hlisten <script> [e:<fl>:<v>]... [keep|drop]
 //                             a listener on signal<T>::hook_up(fn): its first co_await creates the signal, subscribes,
 //                             then passes the collector to fn.  fn calls the collector synchronously once per e-token
@@ -26,6 +27,13 @@
 //                             returned; a call on a destroyed functor instance is reported as C<id>:deadcall
 //   emit <flavour> <v> [hold] collector call from a normal thread; flavour val|rv|lv|conv; without `hold` the
 //                             returned suspend point is discarded (= flushed at once); with `hold` it is kept
+//                             val = const lvalue (in-place overload, copy), rv = rvalue overload (move), lv = lvalue
+//                             reference overload (no copy), conv = in-place construction from constructor arguments.
+//                             obj cases only: valx | rvx | convx = the same call, but the construction of the value
+//                             THROWS (copy / move of a poisoned source, validating constructor): the exception reaches
+//                             the caller, printed as `emit threw` (`!` in a burst / registration list);
+//                             lvx = lvalue reference to a poisoned object: nothing is constructed, nothing can throw.
+//                             (int / void cases: the x is ignored)
 //   flush                     flush (destroy) the oldest held suspend point
 //   burst <tok>...            collector calls made from inside a coroutine: a:<fl>:<v> = co_await col(v),
 //                             d:<fl>:<v> = col(v) with the suspend point discarded (deferred: coroutine mode), X = drop
@@ -37,6 +45,7 @@
 //
 // Events (appended as ` ; e1 e2`, sorted by listener id, per listener in order of occurrence):
 //   L<id>:v<val>  L<id>:canceled  C<id>:v<val>  C<id>:free
+//   L<id>:vdead = the listener was handed a reference to a `reading` that had already been destroyed
 #include "common.h"
 #include <cocls/signal.h>
 #include <cocls/async.h>
@@ -48,6 +57,33 @@
 #include <set>
 
 using namespace cocls;
+
+// The value type of the `obj` cases: construction can fail.
+//   reading(v, true)            validating constructor: throws
+//   copy / move of a poisoned   throws (the source stays as it is)
+// The destructor marks the object, so that a reference handed out after the object's destruction is recognised
+// (`vdead`) instead of silently reading the old bytes.
+struct reading {
+    static constexpr int ALIVE = 0x5a5a1234, DEAD = 0x0dead0de;
+    int v;
+    bool poison;
+    int magic;
+    // a failing construction throws from the initialiser of the FIRST member: not a byte of the object has been written
+    static int chk(int x, bool fail, int code) {
+        if (fail) throw vh::test_exc(code);
+        return x;
+    }
+    explicit reading(int x, bool fail = false) : v(chk(x, fail, 1)), poison(false), magic(ALIVE) {}
+    explicit reading(long x) : v((int)x), poison(false), magic(ALIVE) {}
+    reading(const reading &o) : v(chk(o.v, o.poison, 2)), poison(false), magic(ALIVE) {}
+    reading(reading &&o) : v(chk(o.v, o.poison, 3)), poison(false), magic(ALIVE) {}
+    reading &operator=(const reading &) = delete;
+    ~reading() { *(volatile int *)&magic = DEAD; }
+    bool alive() const { return *(const volatile int *)&magic == ALIVE; }
+};
+
+inline std::string vtxt(const int &v) { return std::to_string(v); }
+inline std::string vtxt(const reading &r) { return r.alive() ? std::to_string(r.v) : std::string("dead"); }
 
 struct Ctx {
     std::mutex mx;
@@ -100,7 +136,7 @@ async<void> listener(Ctx &cx, int id, typename signal<T>::emitter &em, std::stri
                 cx.ev(id, tag + ":v0");
             } else {
                 T &v = co_await em;
-                cx.ev(id, tag + ":v" + std::to_string(v));
+                cx.ev(id, tag + ":v" + vtxt(v));
             }
             char a = pc < script.size() ? script[pc++] : 'r';
             if (a == 'x') break;
@@ -126,7 +162,7 @@ async<void> hook_listener(Ctx &cx, int id, RegFn reg, std::string script) {
                 cx.ev(id, tag + ":v0");
             } else {
                 T &v = co_await em;
-                cx.ev(id, tag + ":v" + std::to_string(v));
+                cx.ev(id, tag + ":v" + vtxt(v));
             }
             char a = pc < script.size() ? script[pc++] : 'r';
             if (a == 'x') break;
@@ -188,6 +224,11 @@ struct cb_fn {
         s->cx->ev(s->id, "C" + std::to_string(s->id) + ":v" + std::to_string(v));
         return answer();
     }
+    bool operator()(reading &v) const {
+        if (!g_fns.check(this)) return false;
+        s->cx->ev(s->id, "C" + std::to_string(s->id) + ":v" + vtxt(v));
+        return answer();
+    }
     bool operator()() const {
         if (!g_fns.check(this)) return false;
         s->cx->ev(s->id, "C" + std::to_string(s->id) + ":v0");
@@ -209,6 +250,7 @@ struct Case {
     std::deque<suspend_point<void>> held;
     std::deque<int> lv_int;     // lvalue-reference emits point here (kept alive for the whole case)
     std::deque<bool> lv_bool;
+    std::deque<reading> lv_obj;
 
     bool hook_pending;
 
@@ -233,12 +275,31 @@ struct Case {
         return n;
     }
 
-    // one collector call of the requested flavour; returns the suspend point
-    suspend_point<void> call(const col_t &col, const std::string &fl, int v) {
+    // one collector call of the requested flavour; returns the suspend point.  obj cases: the x-flavours throw
+    // vh::test_exc out of the collector (from the value's constructor)
+    suspend_point<void> call(const col_t &col, const std::string &flx, int v) {
+        const bool x = !flx.empty() && flx.back() == 'x';
+        const std::string fl = x ? flx.substr(0, flx.size() - 1) : flx;
         if constexpr (std::is_void_v<T>) {
             if (fl == "rv") return col(true);
             if (fl == "lv") { bool &b = lv_bool.emplace_back(true); return col(b); }
             return col();
+        } else if constexpr (std::is_same_v<T, reading>) {
+            if (fl == "rv") {                       // rvalue overload: _value_storage.emplace(std::move(val))
+                reading r(v);
+                r.poison = x;
+                return col(std::move(r));
+            }
+            if (fl == "lv") {                       // lvalue reference overload: only the address is kept
+                reading &r = lv_obj.emplace_back(v);
+                r.poison = x;
+                return col(r);
+            }
+            if (fl == "conv") return col(v, x);     // in-place overload: reading(int, bool) inside emplace
+            reading r(v);                           // in-place overload with a const lvalue: copy inside emplace
+            r.poison = x;
+            const reading &cr = r;
+            return col(cr);
         } else {
             if (fl == "rv") return col(int(v));
             if (fl == "lv") { int &x = lv_int.emplace_back(v); return col(x); }
@@ -262,15 +323,22 @@ struct Case {
             }
             auto col = any_collector();
             if (!col) { head += "-"; continue; }
+            std::optional<suspend_point<void>> osp;
+            try {
+                osp.emplace(call(*col, t.fl, t.v));
+            } catch (const vh::test_exc &) {
+                // the value could not be constructed: the collector call failed, the emitting coroutine goes on
+            }
+            col.reset();
+            if (!osp) { head += "!"; continue; }
             if (t.mode == 'a') {
-                suspend_point<void> sp = call(*col, t.fl, t.v);
-                col.reset();
+                suspend_point<void> sp = std::move(*osp);
+                osp.reset();
                 head += std::to_string(sp.size());
                 co_await sp;
             } else {
-                suspend_point<void> sp = call(*col, t.fl, t.v);
-                col.reset();
-                head += std::to_string(sp.size());
+                head += std::to_string(osp->size());
+                osp.reset();
                 // sp destroyed here: in coroutine mode the listeners are only queued
             }
         }
@@ -320,8 +388,13 @@ struct Case {
                     hook_listener<T>(cx, id, [this, keep, toks, &rels](col_t col) {
                         em = sig_t(col).get_emitter();
                         for (auto &t : toks) {
-                            suspend_point<void> sp = call(col, t.fl, t.v);
-                            rels += (rels.empty() ? "" : ",") + std::to_string(sp.size());
+                            rels += rels.empty() ? "" : ",";
+                            try {
+                                suspend_point<void> sp = call(col, t.fl, t.v);
+                                rels += std::to_string(sp.size());
+                            } catch (const vh::test_exc &) {
+                                rels += "!";       // the registration function handles the failure itself
+                            }
                         }
                         if (keep) handles.emplace_back(std::move(col));
                     }, sc).detach();
@@ -450,11 +523,15 @@ struct Case {
                     head = "bad-op";
                 } else {
                     bool hold = w.size() > 3 && w[3] == "hold";
-                    suspend_point<void> sp = call(*col, w[1], atoi(w[2].c_str()));
-                    col.reset();
-                    head = "emit rel=" + std::to_string(sp.size());
-                    if (hold) held.emplace_back(std::move(sp));
-                    // otherwise sp is destroyed at the end of this block: normal thread => listeners run now
+                    try {
+                        suspend_point<void> sp = call(*col, w[1], atoi(w[2].c_str()));
+                        col.reset();
+                        head = "emit rel=" + std::to_string(sp.size());
+                        if (hold) held.emplace_back(std::move(sp));
+                        // otherwise sp is destroyed at the end of this block: normal thread => listeners run now
+                    } catch (const vh::test_exc &) {
+                        head = "emit threw";        // nothing to hold: the call returned no suspend point
+                    }
                 }
             } else if (w[0] == "flush") {
                 if (held.empty()) {
@@ -648,6 +725,7 @@ int main() {
         const std::string kind = w.size() > 3 ? w[3] : "int";
         const bool hook = w.size() > 4 && w[4] == "hook";
         if (kind == "void") { Case<void> c(hook); c.run(std::cin); }
+        else if (kind == "obj") { Case<reading> c(hook); c.run(std::cin); }
         else { Case<int> c(hook); c.run(std::cin); }
         std::cout.flush();
     }
